@@ -13,7 +13,7 @@ RULE = ("Hypothesis-generated (distribution with 1..6 keys over 1..4 topologies,
 ASSUMPTIONS = ["the raw weighted draw is observed passively through random.choices when the implementation uses it "
                "(one call with k=N); otherwise an existence-of-decomposition predicate is used",
                "weights: chi-square at p<1e-9 on 20000 draws, entries that are not keys (<= sum(size-1) of them) ignored"]
-BUDGET = {"quick": (16, 300), "thorough": (16, 5000)}
+BUDGET = {"quick": (16, 300), "thorough": (16, 15000)}
 
 
 @st.composite
